@@ -1,4 +1,4 @@
-import CssVerif.Lemmas.SheetSpecHead
+import CssVerif.Lemmas.SheetSpecVars
 /-!
 # Lemmas for C02: the sheet — `@charset`, the `@import` section, the `@namespace` section, the body
 -/
@@ -11,12 +11,12 @@ set_option linter.unusedVariables false
 def SImp.WF (O : Oracle) (M : List Cps) : SImp → Prop
   | .comment _ => True
   | .unknown t => UnknownRuleOk M t
-  | .import_ _ _ href _ mq => ImportWF O href mq
+  | .import_ _ _ href _ mq name => ImportWF O href mq name
 
 def SImp.parsed : SImp → Rule
   | .comment b => .comment (commentTok b)
   | .unknown t => .unknown t
-  | .import_ kw g1 href g2 mq => .at_ .import_ (SImp.import_ kw g1 href g2 mq).toks
+  | .import_ kw g1 href g2 mq name => .at_ .import_ (SImp.import_ kw g1 href g2 mq name).toks
 
 def SNs.parsed : SNs → Rule
   | .comment b => .comment (commentTok b)
@@ -57,17 +57,18 @@ theorem sheetLoop_charset (O : Oracle) (M : List Cps) (c : Quote × Cps) (x : Li
 
 /-! ## the `@import` section -/
 
-theorem import_shape (kw : Mask) (g1 : Gap) (href : SHref) (g2 : Gap) (mq : Option (List Tok × Gap))
+theorem import_shape (kw : Mask) (g1 : Gap) (href : SHref) (g2 : Gap) (mq : Option (List Tok × Gap)) (name : SName)
     (hm : ∀ p, mq = some p → QB .default p.1) :
-    ∃ rest, (SImp.import_ kw g1 href g2 mq).toks = atTok .importSym kw "import" :: rest ∧
+    ∃ rest, (SImp.import_ kw g1 href g2 mq name).toks = atTok .importSym kw "import" :: rest ∧
       StmtShape (atTok .importSym kw "import") rest := by
   have hmq : QB .default (impMqToks mq) := by
     cases mq with
     | none => exact QB.nil _
     | some p => obtain ⟨m, g3⟩ := p; exact (hm (m, g3) rfl).append ((gapL_toks g3).qb _)
-  have hg : QB .default (Gap.toks g1 ++ href.tok :: (Gap.toks g2 ++ impMqToks mq)) :=
-    ((gapL_toks g1).qb _).append (QB.cons href.tok_flat (((gapL_toks g2).qb _).append hmq))
-  refine ⟨(Gap.toks g1 ++ href.tok :: (Gap.toks g2 ++ impMqToks mq)) ++ [semiTok], ?_,
+  have hg : QB .default (Gap.toks g1 ++ href.tok :: (Gap.toks g2 ++ (impMqToks mq ++ nameToks name))) :=
+    ((gapL_toks g1).qb _).append (QB.cons href.tok_flat (((gapL_toks g2).qb _).append
+      (hmq.append (nameToks_qb .default rfl name))))
+  refine ⟨(Gap.toks g1 ++ href.tok :: (Gap.toks g2 ++ (impMqToks mq ++ nameToks name))) ++ [semiTok], ?_,
     stmtShape_semi _ _ (atTok_default_flat .importSym kw "import" (by decide) (by decide) (by decide)) hg⟩
   simp [SImp.toks]
 
@@ -95,11 +96,11 @@ theorem sheetLoop_simp (O : Oracle) (M : List Cps) (hO : AtFaithful O) (i : SImp
     · simp
     · simp; omega
     · simp [hb, blocksImport, Rule.kind, Kind.isBody]
-  | import_ kw g1 href g2 mq =>
-    have h : ImportWF O href mq := h
-    obtain ⟨rest, e, hs⟩ := import_shape kw g1 href g2 mq (fun p hp => (h.mqWF p hp).1.qd)
-    have hr := importRule_render O kw g1 href g2 mq h
-    have hok : O.atOk .importSym false (SImp.import_ kw g1 href g2 mq).toks = true := by
+  | import_ kw g1 href g2 mq name =>
+    have h : ImportWF O href mq name := h
+    obtain ⟨rest, e, hs⟩ := import_shape kw g1 href g2 mq name (fun p hp => (h.mqWF p hp).1.qd)
+    have hr := importRule_render O kw g1 href g2 mq name h
+    have hok : O.atOk .importSym false (SImp.import_ kw g1 href g2 mq name).toks = true := by
       rw [hO.import_, hr]; rfl
     have ht : (atTok .importSym kw "import").typ = .importSym := rfl
     have he' : ¬ st.expected > 1 := by omega
@@ -232,9 +233,10 @@ theorem sheetLoop_nss (O : Oracle) (M : List Cps) (hO : AtFaithful O) (l : List 
     (st : SheetSt) (h : ∀ p ∈ l, p.1.WF M) (he : st.expected ≤ 2) (hb : st.rules.any blocksNs = false)
     (hd : ((st.nsmap ++ nsPairs l).map (·.1)).Nodup) :
     ∃ st', sheetLoop O M st (renderNss l ++ x) = sheetLoop O M st' x ∧
-      st'.rules = st.rules ++ l.map (·.1.parsed) ∧ st'.nsmap = st.nsmap ++ nsPairs l := by
+      st'.rules = st.rules ++ l.map (·.1.parsed) ∧ st'.nsmap = st.nsmap ++ nsPairs l ∧ st'.expected ≤ 2 ∧
+      st'.rules.any blocksNs = false := by
   induction l generalizing st with
-  | nil => exact ⟨st, rfl, by simp, by simp [nsPairs]⟩
+  | nil => exact ⟨st, rfl, by simp, by simp [nsPairs], he, hb⟩
   | cons p rest ih =>
     obtain ⟨i, w⟩ := p
     have hpairs : nsPairs ((i, w) :: rest) = i.pair.toList ++ nsPairs rest := by
@@ -250,13 +252,91 @@ theorem sheetLoop_nss (O : Oracle) (M : List Cps) (hO : AtFaithful O) (l : List 
     obtain ⟨st1, a1, a2, a3, a4, a5⟩ := sheetLoop_sns O M hO i (WGap.toks w ++ (renderNss rest ++ x)) st
       (h (i, w) (by simp)) he hb hnew
     obtain ⟨st2, b1, b2, b3, _, b5⟩ := sheetLoop_ws O M w (renderNss rest ++ x) st1
-    obtain ⟨st3, c1, c2, c3⟩ := ih st2 (fun q hq => h q (by simp [hq])) (by omega) (by rw [b2]; exact a5)
+    obtain ⟨st3, c1, c2, c3, c4, c5⟩ := ih st2 (fun q hq => h q (by simp [hq])) (by omega) (by rw [b2]; exact a5)
       (by rw [b3, a3, List.append_assoc]; exact hd)
-    refine ⟨st3, ?_, ?_, ?_⟩
+    refine ⟨st3, ?_, ?_, ?_, c4, c5⟩
     · simp only [renderNss, List.append_assoc]
       rw [a1, b1, c1]
     · rw [c2, b2, a2]; simp
     · rw [c3, b3, a3, hpairs]; simp
+
+/-! ## the `@variables` section -/
+
+/-- rules that must not stand before `@variables` (`cssstylesheet.py:818-842`) -/
+def blocksVars (r : Rule) : Bool := r.kind.isBody
+
+def SVar.WF (O : Oracle) (M : List Cps) : SVar → Prop
+  | .comment _ => True
+  | .unknown t => UnknownRuleOk M t
+  | .variables _ _ blk => blk.WF O
+
+def SVar.parsed : SVar → Rule
+  | .comment b => .comment (commentTok b)
+  | .unknown t => .unknown t
+  | .variables kw g0 blk => .at_ .variables (SVar.variables kw g0 blk).toks
+
+theorem sheetInsert_variables (st : SheetSt) (toks : List Tok) (h : st.rules.any blocksVars = false) :
+    sheetInsert st (.at_ .variables toks) = { st with rules := st.rules ++ [.at_ .variables toks] } := by
+  have e : sheetInsert st (.at_ .variables toks) =
+      if st.rules.any blocksVars then st else { st with rules := st.rules ++ [.at_ .variables toks] } := rfl
+  rw [e, h]; rfl
+
+theorem sheetLoop_svar (O : Oracle) (M : List Cps) (hO : AtFaithful O) (i : SVar) (x : List Tok) (st : SheetSt)
+    (h : i.WF O M) (he : st.expected ≤ 2) (hb : st.rules.any blocksVars = false) :
+    ∃ st', sheetLoop O M st (i.toks ++ x) = sheetLoop O M st' x ∧ st'.rules = st.rules ++ [i.parsed] ∧
+      st'.nsmap = st.nsmap ∧ st'.expected ≤ 2 ∧ st'.rules.any blocksVars = false := by
+  cases i with
+  | comment b =>
+    refine ⟨_, by simpa [SVar.toks] using sheetLoop_commentTok O M b x st, ?_, ?_, ?_, ?_⟩
+    · simp [sheetInsert_comment, SVar.parsed]
+    · simp [sheetInsert_comment]
+    · simp; omega
+    · simp [sheetInsert_comment, hb, blocksVars, Rule.kind, Kind.isBody]
+  | unknown toks =>
+    have h : UnknownRuleOk M toks := h
+    refine ⟨_, by simpa [SVar.toks] using sheetLoop_unknown O M toks x st h, ?_, ?_, ?_, ?_⟩
+    · simp [SVar.parsed]
+    · simp
+    · simp; omega
+    · simp [hb, blocksVars, Rule.kind, Kind.isBody]
+  | variables kw g0 blk =>
+    have h : blk.WF O := h
+    obtain ⟨b1, b2⟩ := SVarBlock.bal O blk h
+    have e : (SVar.variables kw g0 blk).toks =
+        atTok .variablesSym kw "variables" :: (Gap.toks g0 ++ lbraceTok :: (blk.toks ++ [rbraceTok])) := by
+      simp [SVar.toks]
+    have hs := stmtShape_block (atTok .variablesSym kw "variables") (Gap.toks g0) blk.toks
+      (atTok_default_flat _ _ _ (by decide) (by decide) (by decide)) ((gapL_toks g0).qb _) b1 b2
+    have ht : (atTok .variablesSym kw "variables").typ = .variablesSym := rfl
+    have he' : ¬ st.expected > 2 := by omega
+    rw [e, sheetLoop_shape O M st _ _ x hs (by simp [atTok]) (by simp [atTok]) (by simp [atTok])
+      (by simp [atTok]), ← e]
+    refine ⟨_, rfl, ?_, ?_, ?_, ?_⟩
+    · simp only [stmtEffect, ht, he', ↓reduceIte, hO.variables, sheetInsert_variables st _ hb]
+      simp [SVar.parsed]
+    · simp only [stmtEffect, ht, he', ↓reduceIte, hO.variables, sheetInsert_variables st _ hb]
+    · simp only [stmtEffect, ht, he', ↓reduceIte, hO.variables, sheetInsert_variables st _ hb]
+      simp
+    · simp only [stmtEffect, ht, he', ↓reduceIte, hO.variables, sheetInsert_variables st _ hb]
+      simp [hb, blocksVars, Rule.kind, Kind.isBody]
+
+theorem sheetLoop_vars (O : Oracle) (M : List Cps) (hO : AtFaithful O) (l : List (SVar × WGap)) (x : List Tok)
+    (st : SheetSt) (h : ∀ p ∈ l, p.1.WF O M) (he : st.expected ≤ 2) (hb : st.rules.any blocksVars = false) :
+    ∃ st', sheetLoop O M st (renderVars l ++ x) = sheetLoop O M st' x ∧
+      st'.rules = st.rules ++ l.map (·.1.parsed) ∧ st'.nsmap = st.nsmap := by
+  induction l generalizing st with
+  | nil => exact ⟨st, rfl, by simp, rfl⟩
+  | cons p rest ih =>
+    obtain ⟨i, w⟩ := p
+    obtain ⟨st1, a1, a2, a3, a4, a5⟩ := sheetLoop_svar O M hO i (WGap.toks w ++ (renderVars rest ++ x)) st
+      (h (i, w) (by simp)) he hb
+    obtain ⟨st2, b1, b2, b3, _, b5⟩ := sheetLoop_ws O M w (renderVars rest ++ x) st1
+    obtain ⟨st3, c1, c2, c3⟩ := ih st2 (fun q hq => h q (by simp [hq])) (by omega) (by rw [b2]; exact a5)
+    refine ⟨st3, ?_, ?_, ?_⟩
+    · simp only [renderVars, List.append_assoc]
+      rw [a1, b1, c1]
+    · rw [c2, b2, a2]; simp
+    · rw [c3, b3, a3]
 
 /-! ## `_cleanNamespaces` keeps everything when prefixes and URIs are distinct -/
 
@@ -333,13 +413,14 @@ structure SSheet.WF (O : Oracle) (M : List Cps) (s : SSheet) : Prop where
   /-- every prefix and every URI is declared once (else `_cleanNamespaces` drops the earlier rule) -/
   prefixes : ((nsPairs s.namespaces).map (·.1)).Nodup
   uris : ((nsPairs s.namespaces).map (·.2)).Nodup
+  variablesOk : ∀ p ∈ s.variables, p.1.WF O M
   /-- the rules of the body, with the namespaces the sheet declares -/
   rulesOk : s.rules.WF O M (nsPairs s.namespaces) false
 
 /-- the rules the parser builds from a spelled sheet -/
 def SSheet.parsed (O : Oracle) (s : SSheet) : List Rule :=
   (s.charset.map (fun c => Rule.at_ .charset (charsetToks c))).toList ++ s.imports.map (·.1.parsed) ++
-    s.namespaces.map (·.1.parsed) ++ s.rules.parsed O (nsPairs s.namespaces)
+    s.namespaces.map (·.1.parsed) ++ s.variables.map (·.1.parsed) ++ s.rules.parsed O (nsPairs s.namespaces)
 
 theorem SRule.parsed_nsPairOf (O : Oracle) (ns : List (Cps × Cps)) (r : SRule) : nsPairOf (r.parsed O ns) = none := by
   cases r <;> rfl
@@ -367,7 +448,14 @@ theorem SSheet.parsed_nsPairs (O : Oracle) (s : SSheet) :
     funext p
     obtain ⟨i, w⟩ := p
     cases i <;> rfl
-  simp only [SSheet.parsed, List.filterMap_append, h1, h2, h3, SRules.parsed_nsPairs]
+  have h4 : (s.variables.map (·.1.parsed)).filterMap nsPairOf = [] := by
+    rw [List.filterMap_eq_nil_iff]
+    intro r hr
+    simp only [List.mem_map] at hr
+    obtain ⟨p, _, rfl⟩ := hr
+    obtain ⟨i, w⟩ := p
+    cases i <;> rfl
+  simp only [SSheet.parsed, List.filterMap_append, h1, h2, h3, h4, SRules.parsed_nsPairs]
   simp
 
 /-- the rules `CSSStyleSheet.cssText = tokens` builds from a rendered spelled sheet -/
@@ -380,10 +468,11 @@ theorem parseSheet_render (O : Oracle) (M : List Cps) (hO : AtFaithful O) (s : S
   rw [← hclean]
   congr 1
   unfold render
+  generalize hT : renderVars s.variables ++ (s.rules.toks ++ [eofTok]) = T
   -- @charset
   obtain ⟨st0, a0, r0, n0, e0, b0⟩ : ∃ st0 : SheetSt,
-      sheetLoop O M {} (charsetPart s.charset ++ (WGap.toks s.lead ++ (renderImps s.imports ++ (renderNss s.namespaces ++ (s.rules.toks ++ [eofTok]))))) =
-      sheetLoop O M st0 (WGap.toks s.lead ++ (renderImps s.imports ++ (renderNss s.namespaces ++ (s.rules.toks ++ [eofTok])))) ∧
+      sheetLoop O M {} (charsetPart s.charset ++ (WGap.toks s.lead ++ (renderImps s.imports ++ (renderNss s.namespaces ++ T)))) =
+      sheetLoop O M st0 (WGap.toks s.lead ++ (renderImps s.imports ++ (renderNss s.namespaces ++ T))) ∧
       st0.rules = (s.charset.map (fun c => Rule.at_ .charset (charsetToks c))).toList ∧ st0.nsmap = [] ∧
       st0.expected ≤ 1 ∧ st0.rules.any blocksImport = false := by
     cases hc : s.charset with
@@ -392,8 +481,8 @@ theorem parseSheet_render (O : Oracle) (M : List Cps) (hO : AtFaithful O) (s : S
       simp only [charsetPart]
       refine ⟨_, sheetLoop_charset O M c _ (h.charsetOk c hc).2, rfl, rfl, by simp, ?_⟩
       simp [blocksImport, Rule.kind, Kind.isBody]
-  obtain ⟨st1, a1, r1, n1, _, e1⟩ := sheetLoop_ws O M s.lead (renderImps s.imports ++ (renderNss s.namespaces ++ (s.rules.toks ++ [eofTok]))) st0
-  obtain ⟨st2, a2, r2, n2, e2, b2⟩ := sheetLoop_imps O M hO s.imports (renderNss s.namespaces ++ (s.rules.toks ++ [eofTok])) st1
+  obtain ⟨st1, a1, r1, n1, _, e1⟩ := sheetLoop_ws O M s.lead (renderImps s.imports ++ (renderNss s.namespaces ++ T)) st0
+  obtain ⟨st2, a2, r2, n2, e2, b2⟩ := sheetLoop_imps O M hO s.imports (renderNss s.namespaces ++ T) st1
     h.importsOk (by omega) (by rw [r1]; exact b0)
   have b2' : st2.rules.any blocksNs = false := by
     simp only [List.any_eq_false] at b2 ⊢
@@ -404,14 +493,22 @@ theorem parseSheet_render (O : Oracle) (M : List Cps) (hO : AtFaithful O) (s : S
     rcases hb with hb | hb
     · exact Or.inl (Or.inl hb)
     · exact Or.inr hb
-  obtain ⟨st3, a3, r3, n3⟩ := sheetLoop_nss O M hO s.namespaces (s.rules.toks ++ [eofTok]) st2 h.namespacesOk
+  obtain ⟨st3, a3, r3, n3, e3, b3⟩ := sheetLoop_nss O M hO s.namespaces T st2 h.namespacesOk
     (by omega) b2' (by rw [n2, n1, n0]; simpa using h.prefixes)
   have n3' : st3.nsmap = nsPairs s.namespaces := by rw [n3, n2, n1, n0]; simp
-  obtain ⟨st4, a4, r4, n4⟩ := sheetLoop_srules O M hO s.rules [eofTok] st3 (by rw [n3']; exact h.rulesOk)
-  rw [a0, a1, a2, a3, a4]
-  have : sheetLoop O M st4 [eofTok] = st4 := by
+  have b3' : st3.rules.any blocksVars = false := by
+    simp only [List.any_eq_false] at b3 ⊢
+    intro r hr hb
+    apply b3 r hr
+    simp only [blocksVars] at hb
+    simp [blocksNs, hb]
+  subst hT
+  obtain ⟨st4, a4, r4, n4⟩ := sheetLoop_vars O M hO s.variables (s.rules.toks ++ [eofTok]) st3 h.variablesOk e3 b3'
+  obtain ⟨st5, a5, r5, n5⟩ := sheetLoop_srules O M hO s.rules [eofTok] st4 (by rw [n4, n3']; exact h.rulesOk)
+  rw [a0, a1, a2, a3, a4, a5]
+  have : sheetLoop O M st5 [eofTok] = st5 := by
     rw [sheetLoop_cons]; simp [sheetStep, eofTok, sheetLoop_nil]
-  rw [this, r4, r3, r2, r1, r0, n3']
+  rw [this, r5, r4, r3, r2, r1, r0, n4, n3']
   simp [SSheet.parsed]
 
 theorem projRules_eq_map (O : Oracle) (M : List Cps) (l : List Rule) : projRules O M l = l.map (projRule O M) := by
@@ -424,9 +521,9 @@ theorem SImp.proj_parsed (O : Oracle) (M : List Cps) (i : SImp) (h : i.WF O M) :
   cases i with
   | comment b => simp [SImp.parsed, projRule, SImp.erase, commentTok, commentBody, commentVal]
   | unknown t => simp [SImp.parsed, projRule, SImp.erase]
-  | import_ kw g1 href g2 mq =>
-    have h : ImportWF O href mq := h
-    simp only [SImp.parsed, projRule, projAt, importRule_render O kw g1 href g2 mq h, SImp.erase]
+  | import_ kw g1 href g2 mq name =>
+    have h : ImportWF O href mq name := h
+    simp only [SImp.parsed, projRule, projAt, importRule_render O kw g1 href g2 mq name h, SImp.erase]
     cases mq with
     | none => rfl
     | some p =>
@@ -441,6 +538,16 @@ theorem SNs.proj_parsed (O : Oracle) (M : List Cps) (i : SNs) : projRule O M i.p
   | unknown t => simp [SNs.parsed, projRule, SNs.erase]
   | namespace_ kw g1 pfx uri g2 => simp [SNs.parsed, projRule, SNs.erase]
 
+theorem SVar.proj_parsed (O : Oracle) (M : List Cps) (i : SVar) (h : i.WF O M) :
+    projRule O M i.parsed = i.erase := by
+  cases i with
+  | comment b => simp [SVar.parsed, projRule, SVar.erase, commentTok, commentBody, commentVal]
+  | unknown t => simp [SVar.parsed, projRule, SVar.erase]
+  | variables kw g0 blk =>
+    have h : blk.WF O := h
+    simp only [SVar.parsed, projRule, projAt, variablesRule_render O kw g0 blk h, SVar.erase,
+      SVarBlock.proj_parsed O blk h]
+
 /-- the projection of what the parser builds from a spelled sheet is the abstract sheet -/
 theorem projSheet_parsed (O : Oracle) (M : List Cps) (s : SSheet) (h : s.WF O M) :
     projSheet O M (s.parsed O) = s.erase := by
@@ -448,6 +555,7 @@ theorem projSheet_parsed (O : Oracle) (M : List Cps) (s : SSheet) (h : s.WF O M)
   rw [projRules_eq_map]
   simp only [List.map_append, List.map_map]
   rw [← projRules_eq_map O M (s.rules.parsed O _), projRules_parsed O M _ false s.rules h.rulesOk]
+  congr 1
   congr 1
   congr 1
   congr 1
@@ -462,5 +570,8 @@ theorem projSheet_parsed (O : Oracle) (M : List Cps) (s : SSheet) (h : s.WF O M)
   · apply List.map_congr_left
     intro p _
     exact SNs.proj_parsed O M p.1
+  · apply List.map_congr_left
+    intro p hp
+    exact SVar.proj_parsed O M p.1 (h.variablesOk p hp)
 
 end CssVerif.SheetSpec
